@@ -11,6 +11,25 @@ NOTE_COMMON = ("Theorems are about a hand-written Lean model; the model is tied 
                "float rounding measured not proved. Axioms: propext, Classical.choice, Quot.sound only.")
 
 CLAIMS = {
+ "C02": dict(
+   text="Proof (Lean 4): di_balance (direct-integration record: Qh-Qc = cold-hot duty, Qr = hot-Qc, all >= 0 for non-negative CP; "
+        "corollary of the C01 closed form, any number of streams/rows), tz_balance (sums of balanced records are balanced, by "
+        "induction over the zones), ts_balance (the model of the site utility cascade gives Qh_TS-Qc_TS = sum(hot utility duties) - "
+        "sum(cold utility duties), both >= 0, and the Qr formula, for any utility system on a compatible grid), match_preserves_net. "
+        "The total-site STREAM balance additionally needs allocation closure of every zone (C03), which is a hypothesis, not a "
+        "theorem (known finding cold_sufficiency_sign). Oracle: every record of every zone of 300+ random multi-zone problems x "
+        "utility sets per run against the input duties; correspondence of the site utility cascade on 400 random utility systems.",
+   technique="Lean 4 proof (corollaries of the cascade closed form; induction over zones) + correspondence + balance oracle on every record",
+   design="§6 C02"),
+ "C09": dict(
+   text="Proof (Lean 4): tz_is_sum (total-process record is the field-wise sum), ts_le_sum (total-site Qh <= summed hot utility duty, "
+        "Qc <= summed cold utility duty, for any utility system with non-negative duties on a compatible grid — hence, with "
+        "allocation closure, <= the zone sums), ts_qr_formula. The LOWER bound (total-site targets >= the site's own direct "
+        "integration targets) is NOT proved for the code (it needs feasibility of every zone's utility profile, C04); it and the "
+        "per-utility sums are decided by the oracle on 300+ random sites of 1-4 zones x utility ladders per run (31 of 300 with "
+        "positive indirect recovery at seed 0).",
+   technique="Lean 4 proof (bounds from the cascade closed form, partial) + site-level oracle + correspondence of the site cascade",
+   design="§6 C09"),
  "C03": dict(
    text="Partial proof (Lean 4) about the model of _target_utility / _assign_utility / _maximise_utility_duty (tied to the code on "
         "1500 synthetic load profiles x utility ladders per run, all duties compared): duties_nonneg_and_bounded (for every "
